@@ -87,11 +87,11 @@ func initTest() *value.Module {
 			CurrentSuite = subSuite
 
 			_, err = v.CallClosure(argFn)
+			CurrentSuite = prevSuite
 			if !err.IsUndefined() {
 				return value.Undefined, err
 			}
 
-			CurrentSuite = prevSuite
 			return value.Nil, value.Undefined
 		},
 		vm.DefWithParameters(2),
